@@ -82,6 +82,7 @@ impl Fixture {
                 Outcome::Ok { rows, snapshot: self.snapshot() }
             }
             Err(e) if e.at_prepare => Outcome::Rejected(e.msg),
+            Err(e) if self.db.step_budget_exceeded() => Outcome::Failed(format!("step budget exceeded ({})", e.msg)),
             Err(e) => Outcome::Failed(e.msg),
         };
         self.db.exec("ROLLBACK TO fx").expect("rollback");
